@@ -301,6 +301,9 @@ def run(m, iface, seed, n, opts):
                     bisimulate(root, b1, spec, True, problems, fw, rv)
                     bisimulate(other, b2, spec, True, problems, fw, rv)
                     C["c04_shared_state_pairs"] += 1
+                # a stream of graphs the caller does not keep, converted with one shared state
+                if i % 3 == 0:
+                    problems.extend(stream_roundtrip(m, spec, f"{seed}:{i}", c05, C))
             except Exception as e:
                 problems.append(f"exception {type(e).__name__}: {e}"[:300])
             if problems:
@@ -308,6 +311,8 @@ def run(m, iface, seed, n, opts):
                                         "only_alt_mapped_cycle": _only_alt_cycle(problems, spec)})
         if mode in ("c05", "both"):
             problems = db_roundtrip(m, iface, spec, root, C)
+            if i % 3 == 0:
+                problems.extend(db_stream(m, iface, spec, f"{seed}:{i}", C))
             if problems:
                 import re
                 hier_names = {fn for (_, fn) in hier}
@@ -321,6 +326,90 @@ def run(m, iface, seed, n, opts):
                                         "only_alt_mapped_cycle": _only_alt_cycle(problems, spec)})
     out["counters"] = dict(C)
     return out
+
+
+def _stream_root(rng, m, spec, c05):
+    objs = gen_graph(rng, m, spec, c05)
+    return max(objs[:4], key=lambda o: len(reachable(o, spec)))
+
+
+def _convert_and_drop(m, spec, key, c05, state):
+    from krrood.ormatic.dao import to_dao
+    root = _stream_root(random.Random(key), m, spec, c05)
+    return to_dao(root, state)
+
+
+def stream_roundtrip(m, spec, key, c05, C, k=5):
+    """Graphs that die right after their conversion, all converted with one ToDAOState: every DAO must still restore its
+    own graph (the same graph is generated again from the same key to compare with)."""
+    import gc
+    from krrood.ormatic.dao import ToDAOState
+    problems = []
+    state = ToDAOState()
+    daos = []
+    for j in range(k):
+        daos.append(_convert_and_drop(m, spec, f"{key}:s{j}", c05, state))
+        gc.collect()
+    for j, dao in enumerate(daos):
+        again = _stream_root(random.Random(f"{key}:s{j}"), m, spec, c05)
+        mine = []
+        try:
+            back = dao.from_dao()
+            bisimulate(again, back, spec, True, mine)
+        except Exception as e:
+            mine.append(f"exception {type(e).__name__}: {e}"[:200])
+        problems.extend(f"{p} [graph {j} of a stream converted with one shared state]" for p in mine[:4])
+        C["c04_stream_graphs"] += 1
+    return problems
+
+
+def _convert_add_and_drop(m, spec, key, state, session):
+    from krrood.ormatic.dao import to_dao
+    root = _stream_root(random.Random(key), m, spec, True)
+    session.add(to_dao(root, state))
+    want = Counter()
+    for o in reachable(root, spec).values():
+        want[type(o).__name__] += 1
+    return want
+
+
+def db_stream(m, iface, spec, key, C, k=5):
+    """Graphs that die right after their conversion, converted with one ToDAOState and stored in one session: every
+    distinct object of every graph has exactly one row."""
+    import gc
+    from sqlalchemy import text
+    from sqlalchemy.orm import Session
+    from krrood.ormatic.dao import ToDAOState, get_dao_class
+    from krrood.ormatic.utils import create_engine
+    problems = []
+    eng = create_engine("sqlite:///:memory:")
+    iface.Base.metadata.create_all(eng)
+    want = Counter()
+    try:
+        try:
+            with Session(eng) as s:
+                state = ToDAOState()
+                for j in range(k):
+                    want.update(_convert_add_and_drop(m, spec, f"{key}:d{j}", state, s))
+                    gc.collect()
+                s.commit()
+        except Exception as e:
+            return [f"persist of a stream of graphs with one shared state: {type(e).__name__}: {e}"[:300]]
+        with eng.connect() as conn:
+            for c in spec["classes"]:
+                if c.get("unmapped"):
+                    continue
+                T = getattr(m, c["name"])
+                n = sum(v for cn, v in want.items() if issubclass(getattr(m, cn), T))
+                table = get_dao_class(T).__tablename__
+                got = conn.execute(text(f'SELECT count(*) FROM "{table}"')).scalar()
+                C["stream_row_counts_checked"] += 1
+                if got != n:
+                    problems.append(f"table {table} has {got} rows for {n} objects [stream of {k} graphs converted with one shared state]")
+        C["c05_stream_graphs"] += k
+    finally:
+        eng.dispose()
+    return problems
 
 
 def db_roundtrip(m, iface, spec, root, C):
